@@ -3316,3 +3316,22 @@ package sftp
 //@   loop 1 ghost rdFail
 //@   loop 1 invariant !ghost.rdFail
 //@   ensures ghost.rdFail ==> err != nil
+
+// C10: the Request kept for an open handle keeps the absolute, clean path it was opened with; the commands that go
+// through a handle (READ, WRITE, READDIR, and the FSTAT / FSETSTAT Requests synthesised from it) hand that path on.
+//@ pred reqsPathOK(rs *RequestServer) = forall(k, string, haskey(rs.openRequests, k) ==> okPath(rs.openRequests[k].Filepath))
+//@ extend func (*RequestServer).nextRequest
+//@   ensures old(reqsPathOK(rs)) && okPath(r.Filepath) ==> reqsPathOK(rs)
+//@ extend func (*RequestServer).getRequest
+//@   ensures reqsPathOK(rs) && ok ==> okPath(r.Filepath)
+//@ extend func (*RequestServer).closeRequest
+//@   ensures old(reqsPathOK(rs)) ==> reqsPathOK(rs)
+//@ extend func (*RequestServer).packetWorker
+//@   requires reqsPathOK(rs)
+//@   loop 1 invariant reqsPathOK(rs)
+//@   assert before call (*Request).call#5: okPath(arg0.Filepath)
+//@ extend func (*RequestServer).Serve$2$1
+//@   requires reqsPathOK(rs)
+//@ extend func (*RequestServer).Serve
+//@   requires reqsPathOK(rs)
+// (reqsPathOK is a precondition of Serve like reqsOK: a server that has not served yet has an empty table)
